@@ -35,6 +35,7 @@ ASSUMPTIONS = [
     "run returns failed, the report names SyntaxError and the line",
 ]
 NSHARDS = {'quick': 16, 'thorough': 16}
+RULE += (' Fault kinds added during the build: a raising __repr__ with printed output, run-time exceptions with a lineno of their own, exceptions under IGNORE_WANT, a doctest that closes the stream its output is captured in.')
 
 KINDS = {
     'gotwant': (['>>> print("good")', 'FAILMARK bad'], 'GotWantException'),
